@@ -4123,7 +4123,8 @@ namespace detail {
                                 break;
                             }
                             default:
-                                break;
+                                ec = jmespath_errc::expected_rparen;
+                                return jmespath_expression{};
                         }
                         break;
 
